@@ -278,6 +278,44 @@ def rows_of(y, rows):
     return [float(v) for v in np.broadcast_to(np.asarray(y, dtype=float), (rows,))]
 
 
+WAYS = ["string", "enum", "keyword-enum", "configure", "assign", "assign-string-name", "fll", "repr"]
+CONSTRUCTION: dict = {"n": 0, "issues": [], "count": {}}
+
+
+def make_defuzz(fl, avg, ty, way=None):
+    """Weighted{Average,Sum} with the kind TYPES[ty] fixed in one of the ways the API offers (rotating when `way` is None);
+    `defuzzifier.type` is checked right after construction."""
+    cls = fl.WeightedAverage if avg else fl.WeightedSum
+    T = fl.WeightedDefuzzifier.Type
+    if way is None:
+        way = WAYS[CONSTRUCTION["n"] % len(WAYS)]
+        CONSTRUCTION["n"] += 1
+    name = TYPES[ty]
+    if way == "string":
+        d = cls(name)
+    elif way == "enum":
+        d = cls(T[name])
+    elif way == "keyword-enum":
+        d = cls(type=T[name])
+    elif way == "configure":
+        d = cls()
+        d.configure("" if ty == 0 else name)
+    elif way == "assign":
+        d = cls(TYPES[(ty + 1) % 3])
+        d.type = T[name]
+    elif way == "assign-string-name":
+        d = cls()
+        d.type = fl.WeightedDefuzzifier.Type[name]
+    elif way == "fll":
+        d = fl.FllImporter().defuzzifier(cls.__name__ + ("" if ty == 0 else " " + name))
+    else:  # the printed constructor call
+        d = eval(repr(cls(T[name])), {"fl": fl})
+    CONSTRUCTION["count"][way] = CONSTRUCTION["count"].get(way, 0) + 1
+    if type(d) is not cls or d.type is not T[name]:
+        CONSTRUCTION["issues"].append((avg, ty, way, f"{cls.__name__} with the kind {name} fixed by '{way}' has type {getattr(d, 'type', None)!r} ({d!r})"))
+    return d
+
+
 def fuzzy_state(fuzzy):
     """Everything defuzzify could change in the Aggregated object: the list, the Activated objects, their terms, degrees (bits),
     implications, the aggregation operator, and the printed form (term parameters)."""
@@ -287,7 +325,7 @@ def fuzzy_state(fuzzy):
 
 def defuzz(fl, fuzzy, avg, ty, rows, inst=None):
     """`inst`: a defuzzifier instance shared by consecutive calls (None: a fresh one)."""
-    d = inst if inst is not None else (fl.WeightedAverage if avg else fl.WeightedSum)(TYPES[ty])
+    d = inst if inst is not None else make_defuzz(fl, avg, ty)
     try:
         y = d.defuzzify(fuzzy, math.nan, math.nan)
     except (TypeError, RuntimeError, ValueError) as ex:
@@ -307,14 +345,13 @@ def run_impl(fl, case, shared=None):
     before = fuzzy_state(fuzzy)
     for avg, ty in CONFIGS:
         inst = shared.get((avg, ty)) if shared is not None else None
+        want = (inst.type, repr(inst), dict(vars(inst))) if inst is not None else None
         res.append(defuzz(fl, fuzzy, avg, ty, R, inst))
         if inst is not None:
-            now = (inst.type.name, repr(inst))
-            fresh = (fl.WeightedAverage if avg else fl.WeightedSum)(TYPES[ty])
-            want = (fresh.type.name, repr(fresh))
-            if now != want or set(vars(inst)) != set(vars(fresh)):
-                mutated.append((avg, ty, f"the defuzzifier {want[1]} (type {want[0]}) is {now[1]} (type {now[0]}) after defuzzify"))
-                shared[(avg, ty)] = fresh  # go on with a clean instance
+            now = (inst.type, repr(inst), dict(vars(inst)))
+            if now != want:
+                mutated.append((avg, ty, f"the defuzzifier {want[1]} (type {want[0].name}) is {now[1]} (type {getattr(now[0], 'name', now[0])}) after defuzzify"))
+                shared[(avg, ty)] = make_defuzz(fl, avg, ty)  # go on with a clean instance
             after = fuzzy_state(fuzzy)
             if after != before:
                 mutated.append((avg, ty, f"defuzzify changed the Aggregated object: {before[2]} became {after[2]}"))
@@ -584,7 +621,22 @@ def run(ctx, build, verdict, ev):
     ndirected = len(cases)
     cases += [gen_case(fl, obs, rng) for _ in range(ctx.n(2000, 40000))]
     lits, index = [], []
-    shared = {(avg, ty): (fl.WeightedAverage if avg else fl.WeightedSum)(TYPES[ty]) for avg, ty in CONFIGS}
+    CONSTRUCTION.update(n=0, issues=[], count={})
+    for way in WAYS:  # every way x every configuration at least once
+        for avg, ty in CONFIGS:
+            make_defuzz(fl, avg, ty, way)
+    shared = {(avg, ty): make_defuzz(fl, avg, ty) for avg, ty in CONFIGS}
+    seen_issue = set()
+
+    def report_constructions():
+        n = 0
+        for avg, ty, way, what in CONSTRUCTION["issues"]:
+            if (avg, ty, way) not in seen_issue:  # one report per (defuzzifier, kind, way)
+                seen_issue.add((avg, ty, way))
+                verdict.add_violation("defuzzifier:type-not-honoured", what, {"construct": way, "defuzzifier": "WeightedAverage" if avg else "WeightedSum", "type": TYPES[ty]})
+                n += 1
+        return n
+
     dist: dict[str, int] = {}
     stats: dict[str, int] = {}
     nviol = clone_diff = evaluations = 0
@@ -595,6 +647,7 @@ def run(ctx, build, verdict, ev):
     def bump(k):
         dist[k] = dist.get(k, 0) + 1
 
+    nviol += report_constructions()  # the constructions made so far, before any fuzzy output is processed
     with np.errstate(all="ignore"):
         for ci, case in enumerate(cases):
             imp = run_impl(fl, case, shared)
@@ -638,6 +691,7 @@ def run(ctx, build, verdict, ev):
                 samples.append({"output": describe(case, 0), "rows": case.rows,
                                 "results_row0": {f"{'avg' if a else 'sum'}/{TYPES[t]}": (e or y[0]) for (a, t), (e, y) in zip(CONFIGS, imp["res"])},
                                 "groups_row0": [(g["name"], g["deg"][0]) for g in imp["groups"]]})
+    nviol += report_constructions()
     if clone_diff:
         verdict.add_broken("harness", "observer-clone", f"observer clone of term.py disagrees with the real module on {clone_diff} inputs")
     if unexpected:
@@ -662,9 +716,11 @@ def run(ctx, build, verdict, ev):
                  "engine) / Tsukamoto (6 monotonic shapes) / inverse (Triangle, Gaussian) / mixed; degrees 0, 1, k/8, random, NaN, +-inf, subnormal, -0.0; aggregation uniform over "
                  "9 S-norms + lambda + none; 35% batch of 2-4 rows (array and scalar degrees mixed); each output x {WeightedAverage, WeightedSum} x {Automatic, TakagiSugeno, "
                  "Tsukamoto} + grouped_terms + activation_degree, every row compared exactly with the Coq model; plus directed two/three-activation outputs with a zero-degree "
-                 "term of every class; ONE defuzzifier instance per (defuzzifier, type) is reused across all the outputs (kinds follow each other in random order) and compared with the "
+                 "term of every class; the kind is fixed in every way the API offers (string, enum member, keyword, configure, attribute assignment, FLL importer, printed "
+                 "constructor), rotating, and `type` is checked after construction; ONE defuzzifier instance per (defuzzifier, type) is reused across all the outputs (kinds follow each other in random order) and compared with the "
                  "stateless model and with fresh instances; non-trivial = distinct outputs with >= 2 activations and a finite result")
     c["distribution"] = dist
+    c["constructions"] = dict(CONSTRUCTION["count"])
     c["oracle_stats"] = stats
     c["correspondence_mismatches"] = len(mism)
     c["oracle_violations"] = nviol
@@ -691,6 +747,10 @@ def replay(ctx, data):
     for v in data.get("violations", []):
         print(v["what"])
         r = v["replay"]
+        if "construct" in r:
+            CONSTRUCTION.update(n=0, issues=[], count={})
+            d = make_defuzz(fl, r["defuzzifier"] == "WeightedAverage", TYPES.index(r["type"]), r["construct"])
+            print("  now:", repr(d), "type =", d.type)
         if "terms" not in r:
             continue
         eng = make_engine(fl)
